@@ -19,8 +19,13 @@
 (* request field (hex text typed by the operator) is a record                 *)
 (*     [form, hex, n, chars]                                                  *)
 (* form = "ok" (well-formed hex; hex = the decoded bytes, n = their number),  *)
-(* "prefixed" (0x + well-formed hex), "odd" / "nonhex" (no value: chars =     *)
-(* length of the text).  A list of sequences is [n, pat, xs]: n elements,     *)
+(* "prefixed" / "prefixedX" (0x / 0X + well-formed hex), "odd" / "nonhex" (no *)
+(* value: chars = length of the text); the optional field cs says how the     *)
+(* letters are spelled (lower, upper, mixed = EIP-55 checksum case) and never *)
+(* matters: two texts denote the same value iff they decode to the same bytes.*)
+(* Two guardian keys are the same guardian iff they are the same 20 bytes; a  *)
+(* guardian set that names a guardian twice is invalid (must be rejected).    *)
+(*  A list of sequences is [n, pat, xs]: n elements,     *)
 (* given explicitly (pat = "explicit", xs) or by a closed form (pat = "idx":  *)
 (* element i is i; "ff": all ones) so that 65536-element lists stay cheap.    *)
 (* The harness's abstract->concrete mapping (hex text upper/lower case, the   *)
@@ -46,7 +51,7 @@ Inc32(h) ==
     LET hi == SubSeq(h, 1, 4)  lo == SubSeq(h, 5, 8) IN
     IF lo # "ffff" THEN hi \o HexN(HexVal(lo) + 1, 4) ELSE HexN(HexVal(hi) + 1, 4) \o "0000"
 
-OkForms == {"ok", "prefixed"}
+OkForms == {"ok", "prefixed", "prefixedX"}       \* plain hex text, 0x + hex, 0X + hex (any letter case: field cs)
 HasValue(s) == s.form \in OkForms
 
 ----------------------------------------------------------------------------
@@ -128,12 +133,20 @@ TailCount(r) ==
       [] t.type = "lenblob" -> v.n
       [] t.type = "list"    -> Len(v)
       [] t.type = "list64"  -> v.n
+\* a list of keys: every text decodes to exactly ew bytes, the count fits, and no key (= its bytes, however it is
+\* spelled) occurs twice
+ListShapeOK(r) ==
+    LET t == Layout[r.kind].tail  v == r[t.from] IN
+    Len(v) < Pow256(t.cw) /\ \A i \in 1..Len(v) : HasValue(v[i]) /\ v[i].n = t.ew
+ListDistinct(r) ==
+    LET t == Layout[r.kind].tail  v == r[t.from] IN
+    \A i, j \in 1..Len(v) : (i # j /\ HasValue(v[i]) /\ HasValue(v[j])) => v[i].hex # v[j].hex
 TailOK(r) ==
     LET t == Layout[r.kind].tail  v == r[t.from] IN
     CASE t.type = "none"    -> TRUE
       [] t.type = "blob"    -> HasValue(v)
       [] t.type = "lenblob" -> HasValue(v) /\ v.n < Pow256(t.cw)
-      [] t.type = "list"    -> Len(v) < Pow256(t.cw) /\ \A i \in 1..Len(v) : HasValue(v[i]) /\ v[i].n = t.ew
+      [] t.type = "list"    -> ListShapeOK(r) /\ ListDistinct(r)
       [] t.type = "list64"  -> v.n < Pow256(t.cw)
 TailElem(r, i) ==
     LET t == Layout[r.kind].tail  v == r[t.from] IN
@@ -153,7 +166,9 @@ Unfit(r) ==
     ELSE (IF Fits(r.tchain, 2) THEN {} ELSE {"tchain"})
          \cup (IF ModuleOK(r) THEN {} ELSE {"module"})
          \cup {Layout[r.kind].fixed[i].name : i \in {j \in 1..Len(Layout[r.kind].fixed) : ~FieldOK(r, Layout[r.kind].fixed[j])}}
-         \cup (IF TailOK(r) THEN {} ELSE {Layout[r.kind].tail.from})
+         \cup (IF TailOK(r) THEN {}
+               ELSE IF Layout[r.kind].tail.type = "list" /\ ListShapeOK(r) THEN {Layout[r.kind].tail.from \o "-repeated"}
+               ELSE {Layout[r.kind].tail.from})
 
 Size(r) == BaseSize(r.kind) + TailCount(r) * Layout[r.kind].tail.ew          \* bytes
 
